@@ -218,7 +218,8 @@ def split_trace(path, nchunks, start_event='Call'):
     if start_event is None:
         starts = list(range(len(lines)))
     else:
-        starts = [i for i, ln in enumerate(lines) if ('"e":"%s"' % start_event) in ln]
+        pat = start_event if '"' in start_event else ('"e":"%s"' % start_event)
+        starts = [i for i, ln in enumerate(lines) if pat in ln]
     if not starts:
         return [], 0
     per = max(1, (len(starts) + nchunks - 1) // nchunks)
@@ -268,12 +269,10 @@ def validate_trace(module, cfg, trace, nchunks=NCPU, start_event='Call', timeout
     for (f, off), o in zip(chunks, outs):
         res['states'] += o['distinct']
         res['transitions'] += o['generated']
-        if o['incomplete'] and not o['rejects']:
-            # the trace spec could not consume the chunk: machinery problem or un-modelled event
-            o2 = validate_chunk(module, cfg, f, timeout=timeout, env=env, dfs=dfs)
-            if o2['incomplete'] and not o2['rejects']:
-                raise HarnessError('trace chunk %s not consumed by %s (rc=%s)\n%s' % (f, module, o['rc'], o['out'][-3000:]))
-            o = o2
+        if o['incomplete']:
+            # the trace spec reports rejections by REJECT lines and always consumes the whole chunk; anything
+            # else (TLC evaluation error, overflow, un-modelled event) is a machinery problem, never a verdict
+            raise HarnessError('trace chunk %s not fully consumed by %s (rc=%s)\n%s' % (f, module, o['rc'], o['out'][-3000:]))
         if o['rejects'] and recheck:
             o2 = validate_chunk(module, cfg, f, timeout=timeout, env=env, dfs=dfs)
             keep = {k: v for k, v in o['rejects'].items() if k in o2['rejects']}
@@ -285,7 +284,7 @@ def validate_trace(module, cfg, trace, nchunks=NCPU, start_event='Call', timeout
                 # collect the whole call (until next start event) for the replay file
                 seg = [lines[cl - 1]]
                 for ln in lines[cl:]:
-                    if start_event is None or ('"e":"%s"' % start_event) in ln:
+                    if start_event is None or (start_event if '"' in start_event else ('"e":"%s"' % start_event)) in ln:
                         break
                     seg.append(ln)
                 res['rejects'].append({'line': off + l, 'call_line': off + cl, 'clauses': sorted(clauses),
@@ -398,6 +397,13 @@ class Result:
             if len(seen) <= 20:
                 print('VIOLATION property=%s replay=%s  %s' % (self.pid, path, json.dumps(facts, default=str)[:300]), flush=True)
         if self.violations:
+            import collections
+            summ = collections.Counter()
+            for facts, _ in self.violations:
+                summ[(str(facts.get('algo') or facts.get('event') or facts.get('prog') or ''), str(facts.get('T') or facts.get('wt') or ''),
+                      ','.join(facts.get('clauses', [])))] += 1
+            for k, n in summ.most_common(12):
+                print('  summary: %4d x %s' % (n, ' / '.join(k)), flush=True)
             print('%s: %d violation(s) [%s, %.1fs]' % (self.pid, len(self.violations), self.tier, wall), flush=True)
             return 1
         print('%s: OK [%s, %.1fs] states=%d traces=%d' % (self.pid, self.tier, wall, self.cov['states'],
